@@ -33,6 +33,8 @@ def leaf_pool(draw, profile="small", allow_const=False, max_bool=5, max_int=3, m
             leaf["str"] = True
         elif r_ == 3:
             leaf["sub"] = True      # an instance of a user-defined subclass of puan.variable
+        elif r_ == 4:
+            leaf["dt"] = "bool"     # declared as variable(id, (0, 1), dtype="bool")
         if allow_const and draw(st.integers(0, 5)) == 0:
             c = draw(st.integers(0, 1))
             leaf = {"k": "leaf", "id": bool_ids[i], "b": [c, c]}
@@ -64,7 +66,12 @@ def leaf_pool(draw, profile="small", allow_const=False, max_bool=5, max_int=3, m
             b = [lo, lo + w]
             if b == [0, 1] and draw(st.booleans()):
                 b = [0, 2]
-        pool.append({"k": "leaf", "id": INT_IDS[i], "b": b})
+        leaf = {"k": "leaf", "id": INT_IDS[i], "b": b}
+        if draw(st.integers(0, 5)) == 0:
+            leaf["dt"] = "int"      # declared as variable(id, bounds, dtype="int")
+            if b == [-32768, 32767] and draw(st.booleans()):
+                leaf["dt_only"] = True      # variable(id, dtype="int"): the default 16-bit range
+        pool.append(leaf)
     return pool
 
 
